@@ -605,6 +605,9 @@ func evalMsg(c *vh.Ctx, m *MsgSpec, askModel bool) msgResult {
 	res.impl = ns.canon()
 	if askModel && c.HasModel() {
 		res.model = c.Ask("%s", m.line())
+		if ml := c.Ask("methods%s", strings.TrimPrefix(m.line(), "msg")); ml != ns.methodLine() && res.model == res.impl {
+			res.impl, res.model = "methods: "+ns.methodLine(), "methods: "+ml
+		}
 	} else {
 		res.model = res.impl
 	}
